@@ -28,7 +28,7 @@ def parseAction (s : String) : Option Action :=
     | "toggle-in" => some .toggleIn | "toggle-out" => some .toggleOut
     | "select-all" => some .selectAll | "deselect-all" => some .deselectAll | "toggle-all" => some .toggleAll
     | "clear-selection" => some .clearSelection | "toggle-sort" => some .toggleSort
-    | "exclude" => some .exclude | "exclude-multi" => some .excludeMulti
+    | "exclude" => some .exclude | "exclude-multi" => some .excludeMulti | "reload" => some .reload
     | "toggle-input" => some .toggleInput | "show-input" => some .showInput | "hide-input" => some .hideInput
     | "accept" => some .accept | "accept-non-empty" => some .acceptNonEmpty | "accept-or-print-query" => some .acceptOrPrintQuery
     | "abort" => some .abort | "print-query" => some .printQuery
@@ -126,7 +126,7 @@ def run (ctx : Algo.Ctx) (op : String) (args impl : List String) : Outcome :=
       (s', if s'.outcome.isSome then acc.2 else acc.2 ++ [showObs s'])) (init, [])
     -- output on exit
     let printq := o "printq" "0" == "1"
-    let nl (x : Str) := x ++ [10]
+    let nl (x : Str) := x ++ [if o "print0" "0" == "1" then 0 else 10]
     -- --accept-nth: the printed text is the selected fields of the record (AWK-style fields)
     let anth := o "anth" "_"
     let dlm : Fzf.Tokenizer.Delim := match o "dl" "_" with
